@@ -229,13 +229,13 @@ fn judge_hwd_inner(ctx: &mut Ctx, layer: &'static Layer, depth: u8, lon: f64, la
   ctx.eval();
   let rp = ref_sph_coo(depth, h, dx.max(0.0).min(1.0), dy.max(0.0).min(1.0));
   let d = dist(rp, (lon, lat));
-  ctx.worst_max("position_recovered_from_offsets_rad", d);
-  if d > 1e-13 { ctx.violation("position-not-recovered-from-offsets", mk(), format!("h={} dx={} dy={} -> {:?} d={:e}", h, dx, dy, rp, d)); }
+  if lon.abs() < 50.0 { ctx.worst_max("position_recovered_from_offsets_rad", d); }
+  if d > far_tol(1e-13, lon) { ctx.violation("position-not-recovered-from-offsets", mk(), format!("h={} dx={} dy={} -> {:?} d={:e}", h, dx, dy, rp, d)); }
   if dx >= 0.0 && dx < 1.0 && dy >= 0.0 && dy < 1.0 {
     ctx.eval();
     match catch(|| layer.sph_coo(h, dx, dy)) {
       Err(e) => ctx.violation("sph_coo-panics-on-returned-offsets", mk(), e),
-      Ok(p) => { let d = dist(p, (lon, lat)); ctx.worst_max("sph_coo(hash_with_dxdy)_rad", d); if d > 1e-13 { ctx.violation("sph_coo-does-not-invert-hash_with_dxdy", mk(), format!("h={} dx={} dy={} -> {:?} d={:e}", h, dx, dy, p, d)); } }
+      Ok(p) => { let d = dist(p, (lon, lat)); if lon.abs() < 50.0 { ctx.worst_max("sph_coo(hash_with_dxdy)_rad", d); } if d > far_tol(1e-13, lon) { ctx.violation("sph_coo-does-not-invert-hash_with_dxdy", mk(), format!("h={} dx={} dy={} -> {:?} d={:e}", h, dx, dy, p, d)); } }
     }
   }
   // equality with hash unless on a border
